@@ -2546,6 +2546,9 @@ func (g *group) assignUniform(allTPs []assignorTP, memberIDs []string, memberSub
 				if _, ok := memberSubs[mid][topic]; !ok {
 					continue
 				}
+				if assigned[k] {
+					continue // another member's prior target already keeps this partition
+				}
 				kept = append(kept, p)
 				assigned[k] = true
 			}
